@@ -22,7 +22,25 @@ def hx(s):
 
 # ----------------------------------------------------------------------------- cases
 def entry_tok(e):
-    return "%d:%s:%d:%s:%s" % (e["idx"], e["kind"], e["ts"], "-" if e["exp"] is None else str(e["exp"]), hx(e["spec"]))
+    return "%d:%s:%d:%s:%d:%s" % (e["idx"], e["kind"], e["ts"], "-" if e["exp"] is None else str(e["exp"]), e.get("rev", 0), hx(e["spec"]))
+
+
+def config_in_force(entries):
+    """(revision, SessionExpiration) in force after applying `entries`: applyRobustMessage takes a Config message
+    only if it parses (exp is not None) and carries revision in force + 1; anything else is skipped"""
+    rev, exp = 0, 0
+    for e in entries:
+        if e["kind"] == "c" and e["exp"] is not None and e.get("rev", 0) == rev + 1:
+            rev, exp = e["rev"], e["exp"]
+    return rev, exp
+
+
+def pick_revision(rng, rev, p_consecutive):
+    """revision for a generated Config entry when `rev` is in force: mostly rev+1; otherwise a duplicate of the
+    revision in force, a stale one, or a future one (rev+2) - those must have no effect at all"""
+    if rng.random() < p_consecutive:
+        return rev + 1
+    return rng.choice([rev, rev, max(rev - 1, 0), 0, rev + 2, rev + 2, rev + 5])
 
 
 def case_line(c, variant="11", queries=()):
@@ -46,6 +64,7 @@ def simple_entries(rng, tier):
     chans = ["#a", "#B", "#c"]
     idx = 0
     now = T0
+    rev = 0
     jump_at = rng.randint(2, n - 1)
     for k in range(n):
         idx += 1
@@ -66,6 +85,7 @@ def simple_entries(rng, tier):
         ts = now
         kind = "c"
         exp = None
+        erev = 0
         r = rng.random()
         live = [s for s in sessions]
         if not live or (r < 0.12 and len(live) < 4):
@@ -74,6 +94,9 @@ def simple_entries(rng, tier):
         elif r < 0.22:
             d = rng.choice(["30m", "1h", "15m", "11m"] if big else ["5m", "10m", "0s", "15m"])
             spec, exp = "G" + d, DUR[d]
+            erev = pick_revision(rng, rev, 0.75)
+            if erev == rev + 1:
+                rev = erev
         elif r < 0.26 and len(live) > 1:
             sid = rng.choice(live)
             spec = "D%d bye" % sid
@@ -96,7 +119,9 @@ def simple_entries(rng, tier):
                     "PING x", "AWAY :gone", "NICK m%d" % idx, "MODE " + c + " +t", "NAMES " + c, "WHOIS n%d" % rng.choice(live)])
             if rng.random() < 0.04:
                 kind = "m"
-        entries.append({"idx": idx, "kind": kind, "ts": ts, "exp": exp, "spec": spec})
+        if kind == "m" and exp is not None:
+            kind = "c"
+        entries.append({"idx": idx, "kind": kind, "ts": ts, "exp": exp, "rev": erev, "spec": spec})
     # behavioural tail: every surviving session acts once more after the last restore
     for sid in sessions[:4]:
         idx += 1
@@ -119,6 +144,23 @@ class RichGen(irclib.Gen):
         if not self.allow_wo:
             cfg.pop("wo", None)
         return cfg
+
+    def _F(self, cfg=None, invalid=False):
+        """inside the generator's world every Config entry follows the revision in force, so that its idea of the
+        configuration (operators, services passwords, captcha) is the log's; rich_entries() numbers them and adds
+        the Config entries that must be skipped (duplicate / stale / future revisions)"""
+        self._tick()
+        if invalid:
+            self.entries.append({"k": "F", "id": self.id, "ts": self.ts, "rev": self.rev + 1,
+                                 "toml": self.rng.choice(irclib.INVALID_TOMLS), "cfg": "invalid"})
+            return
+        cfg = cfg or self._config()
+        toml, tok = irclib.config_render(cfg, self.rng)
+        self.rev += 1
+        self.entries.append({"k": "F", "id": self.id, "ts": self.ts, "rev": self.rev, "toml": toml, "cfg": tok})
+        self.cfg = cfg
+        self.opers = list(cfg.get("ops", []))
+        self.svcpw = list(cfg.get("svc", []))
 
 
 def rich_entries(rng, tier, allow_wo=False):
@@ -185,13 +227,26 @@ def rich_entries(rng, tier, allow_wo=False):
             M(s, line)
     entries = []
     prev = 0
+    rev = 0
+    last_ts = 0
+    skipped = 0
     for e in g.entries:
         k = e["k"]
         if k not in "CDMXF":
             continue
         for gap in range(prev + 1, e["id"]):
-            if r.random() < 0.5:
+            k2 = r.random()
+            if k2 < 0.4:
                 entries.append({"idx": gap, "kind": "i", "ts": 0, "exp": None, "spec": ""})
+            elif k2 < 0.55 and entries and last_ts:
+                # a Config entry that does NOT follow the revision in force: must be skipped by every node
+                d = r.choice([60, 300, 420, 7200])
+                last_ts += 1
+                srev = r.choice([rev, rev, max(rev - 1, 0), 0, rev + 2, rev + 2, rev + 7])
+                toml = ('SessionExpiration = "%ds"\nPostMessageCooloff = "0s"\nMaxChannels = 1\n' % d).encode()
+                entries.append({"idx": gap, "kind": "c", "ts": last_ts, "exp": d * S, "rev": srev, "extra": True,
+                                "spec": "J" + json.dumps({"T": "F", "Rev": srev, "Toml": toml.hex()}, separators=(",", ":"))})
+                skipped += 1
         prev = e["id"]
         exp = None
         if k == "C":
@@ -206,16 +261,22 @@ def rich_entries(rng, tier, allow_wo=False):
                 toml.decode("utf-8")
             except UnicodeDecodeError:
                 toml = b"SessionExpiration = [not valid"   # the API cannot propose invalid UTF-8 (proto.Marshal refuses it)
-            j = {"T": "F", "Rev": e["rev"], "Toml": toml.hex()}
             m = re.match(r"exp=(\d+)", e["cfg"])
             exp = int(m.group(1)) if m else None
+            # revisions are assigned here (independent of irclib's numbering): revision in force + 1; the skipped kinds
+            # (duplicate / stale / future) are extra entries in index gaps, see above
+            erev = rev + 1
+            if exp is not None:
+                rev = erev
+            j = {"T": "F", "Rev": erev, "Toml": toml.hex()}
         entries.append({"idx": e["id"], "kind": "m" if k == "X" else "c", "ts": e["ts"], "exp": exp,
-                        "spec": "J" + json.dumps(j, separators=(",", ":"))})
+                        "rev": erev if k == "F" else 0, "spec": "J" + json.dumps(j, separators=(",", ":"))})
+        last_ts = e["ts"]
     nmain = len([x for x in entries if x["kind"] != "i"])
     # position (in entries) right after the main-th command
     cnt, pos = 0, len(entries)
     for i, x in enumerate(entries):
-        if x["kind"] != "i":
+        if x["kind"] != "i" and not x.get("extra"):
             cnt += 1
             if cnt == main:
                 pos = i + 1
@@ -236,13 +297,14 @@ def make_schedule(rng, entries, pattern, allow_d18, d18_window):
     applied = 0
     persisted = 0
     cur_exp = 0
+    cur_rev = 0
     extra = rng.randint(2, 5)
     while applied < len(entries) or extra > 0:
         r = rng.random()
         if applied < len(entries) and r < 0.62:
             e = entries[applied]
-            if e["kind"] == "c" and e["exp"] is not None:
-                cur_exp = e["exp"]
+            if e["kind"] == "c" and e["exp"] is not None and e.get("rev", 0) == cur_rev + 1:
+                cur_rev, cur_exp = e["rev"], e["exp"]
             applied += 1
             steps.append("A")
             continue
@@ -270,8 +332,8 @@ def make_schedule(rng, entries, pattern, allow_d18, d18_window):
                 # Snapshot() now, Persist() after raft applied k more entries
                 kk = rng.randint(2, 4)
                 for e in entries[applied:applied + kk]:
-                    if e["kind"] == "c" and e["exp"] is not None:
-                        cur_exp = e["exp"]
+                    if e["kind"] == "c" and e["exp"] is not None and e.get("rev", 0) == cur_rev + 1:
+                        cur_rev, cur_exp = e["rev"], e["exp"]
                 applied = min(len(entries), applied + kk)
                 steps.append("SP%d:%d:%s" % (t, kk, res))
             else:
@@ -529,6 +591,7 @@ def translate_model_rec(m, tb, case):
             keys.append("%s=%s%s" % (k, tb.st(desc), "@" + lii if lii else ""))
         out.append("keys:" + ",".join(keys))
         out.append("exp:" + r.get("exp", ""))
+        out.append("rev:" + r.get("rev", ""))
         out.append("srv:" + tb.st(r.get("srv", "")))
         out.append("n:" + r.get("n", ""))
     return out
@@ -548,6 +611,7 @@ def canon_go_rec(r):
         out.append("out:" + ",".join("%s=%s" % kv for kv in r["outs"]))
         out.append("keys:" + ",".join("%s=%s" % kv for kv in r["keyl"]))
         out.append("exp:" + r.get("exp", ""))
+        out.append("rev:" + r.get("rev", ""))
         out.append("srv:" + r.get("srv", ""))
         out.append("n:" + r.get("n", ""))
     return out
@@ -629,6 +693,14 @@ def monitor(case, g):
             return (state_sig("state-differs-from-replay", r["srv"], want),
                     "step %d (%s): live state %s (digest of canonical Marshal . digest of the field dump . digest of WhitelistedOrigins), "
                     "plain replay of the %d applied entries %s" % (k, op, r["srv"], n, want), k)
+        # the revision in force and the FSM's horizon copy follow the accepted Config messages only
+        want_rev, want_exp = config_in_force(applied)
+        if r.get("rev") is not None and r["rev"] != str(want_rev):
+            return ("config-revision-differs", "step %d (%s): Config.Revision in force is %s, the applied prefix puts revision %d in force "
+                    "(a Config message takes effect iff it parses and carries revision in force + 1)" % (k, op, r["rev"], want_rev), k)
+        if r.get("exp") is not None and r["exp"] != str(want_exp or TEN_MIN):
+            return ("horizon-not-from-live-config", "step %d (%s): the FSM's expiration copy is %s ns, the configuration in force says %d ns"
+                    % (k, op, r["exp"], want_exp or TEN_MIN), k)
         # (exactness) the log copy is a suffix of the applied commands, byte-identical
         if any(s.endswith("~") or s.endswith("?") for s in stored):
             return ("stored-entry-modified", "step %d (%s): stored entries differ from the log: %s" % (k, op, stored), k)
@@ -666,11 +738,8 @@ def monitor(case, g):
             # horizon: t - (SessionExpiration of the last applied valid Config + 10 s)
             t = int(case["steps"][k].lstrip("SP").split(":")[0]) if case["steps"][k].startswith("S") else None
             if t is not None:
-                exp = 0
                 n_snap = int(g["recs"][k - 1]["n"]) if k > 0 and "n" in g["recs"][k - 1] else 0   # applied when Snapshot() ran
-                for e in [x for x in ents[:n_snap] if x["kind"] != "i"]:
-                    if e["kind"] == "c" and e["exp"] is not None:
-                        exp = e["exp"]
+                _, exp = config_in_force(ents[:n_snap])
                 hz = t - ((exp or TEN_MIN) + INTERVAL)
                 ts = {str(e["idx"]): e["ts"] for e in ents}
                 want_fold = []
@@ -946,6 +1015,17 @@ def run(ck, replay):
         dist["file_sink_cases"] += 1 if c["sink"] == "F" else 0
         p = c.get("meta", {}).get("pattern", "corpus")
         dist["patterns"][p] = dist["patterns"].get(p, 0) + 1
+        cf = dist.setdefault("config_entries", {"taking_effect": 0, "skipped_revision_not_consecutive": 0, "not_parsing": 0})
+        rv = 0
+        for e in c["entries"]:
+            if e["kind"] == "c" and (e["spec"].startswith("G") or '"T":"F"' in e["spec"]):
+                if e["exp"] is None:
+                    cf["not_parsing"] += 1
+                elif e.get("rev", 0) == rv + 1:
+                    rv = e["rev"]
+                    cf["taking_effect"] += 1
+                else:
+                    cf["skipped_revision_not_consecutive"] += 1
         meta = c.get("meta", {})
         if meta.get("kind") == "rich":
             rf = dist.setdefault("rich", {"cases": 0, "with_services_link": 0, "caplogin_at_end": 0, "pending_shapes": {}, "entries": 0})
